@@ -4,6 +4,7 @@ import (
 	"fmt"
 	"net/url"
 	"regexp"
+	"strconv"
 	"strings"
 	"unicode/utf8"
 
@@ -106,11 +107,78 @@ func runC17(r *run) {
 		}
 	}
 	tplCache := map[string]*pongo2.Template{}
-	driveCases(r, gen, func(r *run, c caseT) { execC17(r, c, tplCache) })
+	gen2 := func(emit func(caseT)) {
+		gen(emit)
+		// two filters in a row: written as v|F|G the template computes G(F(v)), for every pair
+		// of the escaping filters with each other and with the text filters they are combined with
+		others := []string{"striptags", "linebreaksbr", "linebreaks", "upper", "lower", "addslashes", "capfirst", "title", "urlize", "truncatechars:3", "cut:\"a\"", "length", "default:\"d\"", "wordcount", "first", "last", "join:\"-\""}
+		ins := []string{"<b>a & 'q' \"d\"</b>\nline two", "a<b", "x\ny", "&amp; &lt;", "it's \\ back", "", "<script>alert(1)</script>", "www.a.bc <i>", "é<ü>"}
+		for _, f1 := range c17Filters {
+			if f1 == "removetags" {
+				f1 = "removetags:\"b,i\""
+			}
+			for _, f2 := range append(append([]string{}, others...), c17Filters...) {
+				if f2 == "removetags" {
+					f2 = "removetags:\"b\""
+				}
+				for _, in := range ins {
+					emit(caseT{"chain2", []string{hx(in), hx(f1), hx(f2)}})
+					emit(caseT{"chain2", []string{hx(in), hx(f2), hx(f1)}})
+				}
+			}
+		}
+	}
+	driveCases(r, gen2, func(r *run, c caseT) { execC17(r, c, tplCache) })
 	r.finish(map[string]any{"filters": c17Filters})
 }
 
+func execChain2(r *run, c caseT, tplCache map[string]*pongo2.Template) {
+	in, f1, f2 := unhx(c.args[0]), unhx(c.args[1]), unhx(c.args[2])
+	apply := func(f string, v *pongo2.Value) (*pongo2.Value, error) {
+		name, p := f, (*pongo2.Value)(nil)
+		if i := strings.Index(f, ":"); i >= 0 {
+			name = f[:i]
+			p = pongo2.AsValue(strings.Trim(f[i+1:], "\""))
+			if n, err := strconv.Atoi(f[i+1:]); err == nil {
+				p = pongo2.AsValue(n)
+			}
+		}
+		out, err := pongo2.ApplyFilter(name, v, p)
+		if err != nil {
+			return nil, err
+		}
+		return out, nil
+	}
+	want := "err"
+	if v1, e1 := apply(f1, pongo2.AsValue(in)); e1 == nil {
+		if v2, e2 := apply(f2, v1); e2 == nil {
+			want = obsOK(v2.String())
+		}
+	}
+	src := "{% autoescape off %}{{ v|" + f1 + "|" + f2 + " }}{% endautoescape %}"
+	tpl := tplCache[src]
+	if tpl == nil {
+		var e error
+		tpl, e = pongo2.FromString(src)
+		must(e)
+		tplCache[src] = tpl
+	}
+	got := "err"
+	if out, err := tpl.Execute(pongo2.Context{"v": in}); err == nil {
+		got = obsOK(out)
+	}
+	id := r.emit(c.op, c.args, got)
+	r.nontrivial(strings.Join(c.args, "|"))
+	if got != want {
+		r.reject(id, "v|F|G in a template is not G applied to the result of F", map[string]any{"input": in, "first": f1, "second": f2, "template": got, "composition": want})
+	}
+}
+
 func execC17(r *run, c caseT, tplCache map[string]*pongo2.Template) {
+	if c.op == "chain2" {
+		execChain2(r, c, tplCache)
+		return
+	}
 	in := unhx(c.args[0])
 	var param *pongo2.Value
 	pstr := ""
